@@ -78,7 +78,7 @@ TReset(e) ==
   /\ succ' = [c \in Conns |-> InitSuccess]
   /\ lag' = Zero /\ lmin' = Zero /\ lmax' = Zero
   /\ lastPick' = [c \in Conns |-> -1] /\ lastDone' = [c \in Conns |-> -1]
-  /\ prevPick' = -1 /\ badrun' = Zero /\ goodrun' = Zero
+  /\ prevPick' = -1 /\ badrun' = Zero /\ goodrun' = Zero /\ failrun' = Zero
   /\ out' = [op |-> "init"]
   /\ skip' = FALSE
 
